@@ -60,7 +60,13 @@ type Mode struct {
 }
 
 type Case struct {
-	Kind string `json:"kind"` // release | parties | sortp | validate | scenario
+	Kind string `json:"kind"` // release | parties | sortp | validate | scenario | btcwatch
+	// btcwatch (btc.go): Inputs = transaction inputs, Results = what arrives on the executor's
+	// signature channel, in order: -1 a nil value, id >= 0 the signature of input id's process
+	Results []int `json:"results,omitempty"`
+	// scenario: the signing processes of one relayer of the first signing session after every refresh
+	// are constructed WHILE that refresh runs on the relayer (overlap.go)
+	Overlap bool `json:"overlap,omitempty"`
 	// release
 	Coordinator bool `json:"coordinator,omitempty"`
 	// parties / sortp / validate: peer ids in base58
@@ -132,6 +138,17 @@ type Obs struct {
 	VCode int `json:"vcode,omitempty"`
 	// scenario
 	Stages []Stage `json:"stages,omitempty"`
+	// btcwatch: transactions that reached the node; per input: its witness verifies in all of them
+	Sent    int    `json:"sent,omitempty"`
+	Valids  []bool `json:"valids,omitempty"`
+	BtcNote string `json:"btc_note,omitempty"`
+	// btcexec: the same per relayer
+	Relayers []RelayerTx `json:"relayers,omitempty"`
+}
+
+type RelayerTx struct {
+	Sent   int    `json:"sent"`
+	Valids []bool `json:"valids"`
 }
 
 // ---- glue ------------------------------------------------------------------------------------------
@@ -354,34 +371,48 @@ func digestInput(seed uint64, stage int, subset []int, input int) []byte {
 	return h[:]
 }
 
+// normOpts: the BTC executor's pattern (one process per input) exists for FROST only.
+func normOpts(proto string, o signOpts) signOpts {
+	if proto == "ecdsa" && o.Chan == "btc" {
+		o.Chan, o.Inputs = "cap1", 1
+	}
+	if o.Chan != "btc" {
+		o.Inputs = 1
+	}
+	return o
+}
+
+// signPlan: session id, the digests (one per input) and, for FROST, the Taproot tweak of a signing
+// session of `subset` after `stage`.
+func signPlan(proto string, stage int, subset []int, seed uint64, pub []byte, o signOpts) (sid string, digests [][]byte, tweakHex string, tweaked *btcec.PublicKey, err error) {
+	digests = make([][]byte, o.inputs())
+	for k := range digests {
+		digests[k] = digestInput(seed, stage, subset, k)
+	}
+	sid = fmt.Sprintf("sign-%d-%s", stage, strings.Trim(strings.ReplaceAll(fmt.Sprint(subset), " ", "_"), "[]"))
+	if proto == "frost" {
+		p, perr := schnorr.ParsePubKey(pub)
+		if perr != nil {
+			return sid, digests, "", nil, fmt.Errorf("stored taproot key does not parse: %v", perr)
+		}
+		tweak := chainhash.TaggedHash(chainhash.TagTapTweak, schnorr.SerializePubKey(p))
+		tweaked = txscript.ComputeTaprootKeyNoScript(p)
+		tweakHex = hex.EncodeToString(tweak[:])
+	}
+	return sid, digests, tweakHex, tweaked, nil
+}
+
 // signStage: one signing session of `subset` (coordinator = subset[coord]) with the result channels,
 // readers and first-attempt failure that `o` asks for (session.go).  Released / Valid are reported for
 // the relayers selected in the LAST attempt (the holders that completed the session), in order;
 // Coord is the position of that attempt's coordinator among them.
 func signStage(w *world, proto string, u []peer.ID, committee, subset []int, coord int, must bool, stage int, seed uint64, pub []byte, o signOpts) Stage {
 	st := Stage{Must: must, Subset: subset, Coord: coord}
-	if proto == "ecdsa" && o.Chan == "btc" {
-		o.Chan, o.Inputs = "cap1", 1 // the BTC executor's pattern exists for FROST only
-	}
-	if o.Chan != "btc" {
-		o.Inputs = 1
-	}
-	digests := make([][]byte, o.inputs())
-	for k := range digests {
-		digests[k] = digestInput(seed, stage, subset, k)
-	}
-	sid := fmt.Sprintf("sign-%d-%s", stage, strings.Trim(strings.ReplaceAll(fmt.Sprint(subset), " ", "_"), "[]"))
-	var tweaked *btcec.PublicKey
-	tweakHex := ""
-	if proto == "frost" {
-		p, perr := schnorr.ParsePubKey(pub)
-		if perr != nil {
-			st.Note = "stored taproot key does not parse: " + perr.Error()
-			return st
-		}
-		tweak := chainhash.TaggedHash(chainhash.TagTapTweak, schnorr.SerializePubKey(p))
-		tweaked = txscript.ComputeTaprootKeyNoScript(p)
-		tweakHex = hex.EncodeToString(tweak[:])
+	o = normOpts(proto, o)
+	sid, digests, tweakHex, tweaked, perr := signPlan(proto, stage, subset, seed, pub, o)
+	if perr != nil {
+		st.Note = perr.Error()
+		return st
 	}
 	// the relayers: the signers and, for a retry with a changed subset, one more committee member
 	idx := append([]int(nil), subset...)
@@ -510,6 +541,26 @@ func ecdsaValid(sg *tsscommon.SignatureData, digest, pub []byte) bool {
 	return err == nil && string(rec) == string(pub)
 }
 
+// signSubsets: the threshold+1 subsets of the committee that sign after `stage` (all of them, or a
+// rotating choice of MaxSubsets).
+func signSubsets(c Case, committee []int, t, stage int) [][]int {
+	subs := subsetsOf(committee, t+1)
+	if c.MaxSubsets > 0 && len(subs) > c.MaxSubsets {
+		off := int(c.Seed+uint64(stage)) % len(subs)
+		subs = append(append([][]int(nil), subs[off:]...), subs[:off]...)[:c.MaxSubsets]
+	}
+	return subs
+}
+
+// optsFor: how the k-th signing session of a stage hands its result over.
+func optsFor(c Case, k int) signOpts {
+	if len(c.Modes) > 0 {
+		m := c.Modes[k%len(c.Modes)]
+		return signOpts{Chan: m.Chan, Reader: m.Reader, Retry: m.Retry, Inputs: m.Inputs}
+	}
+	return signOpts{Chan: c.Chan, Reader: c.Reader, Retry: c.Retry, Inputs: c.Inputs}
+}
+
 func runScenario(c Case) Obs {
 	maxIdx := 3
 	for _, r := range c.Reshares {
@@ -568,12 +619,7 @@ func runScenario(c Case) Obs {
 		o.Stages = append(o.Stages, st)
 		prevPts = st.Pts
 		if signAt[stage] {
-			subs := subsetsOf(committee, t+1)
-			if c.MaxSubsets > 0 && len(subs) > c.MaxSubsets {
-				off := int(c.Seed+uint64(stage)) % len(subs)
-				subs = append(append([][]int(nil), subs[off:]...), subs[:off]...)[:c.MaxSubsets]
-			}
-			opts := signOpts{Chan: c.Chan, Reader: c.Reader, Retry: c.Retry, Inputs: c.Inputs}
+			subs := signSubsets(c, committee, t, stage)
 			res := make([]Stage, len(subs))
 			var wg sync.WaitGroup
 			for k, sub := range subs {
@@ -581,11 +627,7 @@ func runScenario(c Case) Obs {
 				go func(k int, sub []int) {
 					defer wg.Done()
 					coord := int((c.Seed + uint64(k) + uint64(stage)) % uint64(len(sub)))
-					o := opts
-					if len(c.Modes) > 0 {
-						m := c.Modes[k%len(c.Modes)]
-						o = signOpts{Chan: m.Chan, Reader: m.Reader, Retry: m.Retry, Inputs: m.Inputs}
-					}
+					o := optsFor(c, k)
 					res[k] = signStage(w, c.Proto, u, committee, sub, coord, stage > 0, stage, c.Seed, pub, o)
 				}(k, sub)
 			}
@@ -599,6 +641,10 @@ func runScenario(c Case) Obs {
 		var r runResult
 		var err error
 		sid := fmt.Sprintf("reshare-%d", stage)
+		w.ov = nil
+		if c.Overlap && signAt[stage+1] {
+			planOverlap(w, c, u, committee, rs.Members, rs.T, stage, pub)
+		}
 		if c.Proto == "ecdsa" {
 			r, err = w.ecdsaReshare(sid, pick(u, rs.Members), rs.T)
 		} else {
@@ -607,6 +653,7 @@ func runScenario(c Case) Obs {
 		if err != nil {
 			return fail(true, "reshare: "+err.Error())
 		}
+		w.ov = nil
 		if r.TimedOut || firstErr(r.Errs) != "" {
 			return fail(true, "reshare: "+firstErr(r.Errs))
 		}
@@ -648,6 +695,10 @@ func (f *future) get(c Case) Obs {
 			cpuSem <- struct{}{}
 			defer func() { <-cpuSem }()
 		}
+		if c.Kind == "btcexec" {
+			f.obs = runBtcExec(c)
+			return
+		}
 		f.obs = runScenario(c)
 	})
 	return f.obs
@@ -663,8 +714,10 @@ func run(c Case) Obs {
 		return runSortP(c)
 	case "validate":
 		return runValidate(c)
-	case "scenario":
+	case "scenario", "btcexec":
 		return futureOf(c).get(c)
+	case "btcwatch":
+		return runBtcWatch(c)
 	}
 	panic("unknown kind " + c.Kind)
 }
@@ -783,6 +836,7 @@ func gen(r *vgen.Rng, tier string) []Case {
 		oldT := r.Range(-1, len(sub)+1)
 		out = append(out, Case{Kind: "validate", Peers: strs(store), KeyPeers: strs(keyPeers), Old: strs(sub), OldT: oldT})
 	}
+	out = append(out, genBtcWatch(r, tier)...)
 	seed := r.U64() % 1000
 	scn := []Case{
 		// the repository's fixture shares: every pair signs
@@ -790,19 +844,21 @@ func gen(r *vgen.Rng, tier string) []Case {
 		{Kind: "scenario", Proto: "frost", Start: "fixtures", SignAt: []int{0}, Seed: seed},
 		// refresh with a joining member, every pair of the new committee signs
 		// (ECDSA: the six pairs hand their signature over in six ways, two of them after a failed first attempt)
-		{Kind: "scenario", Proto: "ecdsa", Start: "fixtures", Reshares: []Reshare{{Members: []int{0, 1, 2, 3}, T: 1}}, SignAt: []int{1}, Seed: seed,
+		// (Overlap: one relayer's signing processes of the first session are constructed WHILE the refresh
+		// runs there - overlap.go)
+		{Kind: "scenario", Proto: "ecdsa", Start: "fixtures", Reshares: []Reshare{{Members: []int{0, 1, 2, 3}, T: 1}}, SignAt: []int{1}, Seed: seed, Overlap: true,
 			Modes: []Mode{{}, {Chan: "unbuf", Reader: "late"}, {Retry: "commerr"}, {Chan: "unbuf", Reader: "evm"}, {Retry: "subset", Chan: "unbuf"}, {Chan: "cap1"}}},
 		{Kind: "scenario", Proto: "frost", Start: "fixtures", Reshares: []Reshare{{Members: []int{0, 1, 2, 3}, T: 1}}, SignAt: []int{1}, Seed: seed},
 		// refresh of the unchanged committee; the three pairs: retried, late reader, retried with a changed subset
-		{Kind: "scenario", Proto: "frost", Start: "fixtures", Reshares: []Reshare{{Members: []int{0, 1, 2}, T: 1}}, SignAt: []int{1}, Seed: seed,
+		{Kind: "scenario", Proto: "frost", Start: "fixtures", Reshares: []Reshare{{Members: []int{0, 1, 2}, T: 1}}, SignAt: []int{1}, Seed: seed, Overlap: true,
 			Modes: []Mode{{Retry: "commerr"}, {Chan: "unbuf", Reader: "late"}, {Retry: "subset", Chan: "btc", Inputs: 2}}},
 		// a member leaves
-		{Kind: "scenario", Proto: "ecdsa", Start: "fixtures", Reshares: []Reshare{{Members: []int{0, 2}, T: 1}}, SignAt: []int{1}, Seed: seed},
-		{Kind: "scenario", Proto: "frost", Start: "fixtures", Reshares: []Reshare{{Members: []int{0, 2}, T: 1}}, SignAt: []int{1}, Seed: seed},
+		{Kind: "scenario", Proto: "ecdsa", Start: "fixtures", Reshares: []Reshare{{Members: []int{0, 2}, T: 1}}, SignAt: []int{1}, Seed: seed, Overlap: true},
+		{Kind: "scenario", Proto: "frost", Start: "fixtures", Reshares: []Reshare{{Members: []int{0, 2}, T: 1}}, SignAt: []int{1}, Seed: seed, Overlap: true},
 		// threshold raised (ECDSA: together with a join and a leave)
 		{Kind: "scenario", Proto: "ecdsa", Start: "fixtures", Reshares: []Reshare{{Members: []int{0, 1, 3, 4}, T: 2}}, SignAt: []int{1}, Seed: seed,
 			Modes: []Mode{{}, {Chan: "unbuf", Reader: "late"}, {}, {Chan: "unbuf", Reader: "evm"}}},
-		{Kind: "scenario", Proto: "frost", Start: "fixtures", Reshares: []Reshare{{Members: []int{0, 1, 2}, T: 2}}, SignAt: []int{1}, Seed: seed},
+		{Kind: "scenario", Proto: "frost", Start: "fixtures", Reshares: []Reshare{{Members: []int{0, 1, 2}, T: 2}}, SignAt: []int{1}, Seed: seed, Overlap: true},
 	}
 	// how the signature is handed over (the executors' result channels and readers) and retried
 	// attempts on the same process objects (session.go); fixture shares, a rotating choice of subsets
@@ -816,7 +872,10 @@ func gen(r *vgen.Rng, tier string) []Case {
 		Case{Kind: "scenario", Proto: "frost", Start: "fixtures", SignAt: []int{0}, Seed: seed + 2, Retry: "commerr", MaxSubsets: 2},
 		Case{Kind: "scenario", Proto: "frost", Start: "fixtures", SignAt: []int{0}, Seed: seed + 3, Retry: "subset", Chan: "btc", Inputs: 2, MaxSubsets: 1},
 	)
+	// the complete BTC executor on three relayers: a transfer that needs two of the bridge's UTXOs
+	scn = append(scn, Case{Kind: "btcexec", Inputs: 2, Seed: seed})
 	if tier == "thorough" {
+		scn = append(scn, Case{Kind: "btcexec", Inputs: 1, Seed: seed + 1}, Case{Kind: "btcexec", Inputs: 3, Seed: seed + 2}, Case{Kind: "btcexec", Inputs: 2, Seed: seed + 3})
 		for _, proto := range []string{"ecdsa", "frost"} {
 			scn = append(scn,
 				Case{Kind: "scenario", Proto: proto, Start: "fixtures", SignAt: []int{0}, Seed: seed + 5, Chan: "unbuf"},
@@ -831,10 +890,10 @@ func gen(r *vgen.Rng, tier string) []Case {
 			Case{Kind: "scenario", Proto: "frost", Start: "fixtures", SignAt: []int{0}, Seed: seed + 8, Chan: "btc", Inputs: 3, Reader: "late"},
 			Case{Kind: "scenario", Proto: "frost", Start: "fixtures", SignAt: []int{0}, Seed: seed + 8, Chan: "btc", Inputs: 3, Retry: "commerr"},
 			// after a refresh: the new committee signs with late readers / after a failed first attempt
-			Case{Kind: "scenario", Proto: "ecdsa", Start: "fixtures", Reshares: []Reshare{{Members: []int{0, 1, 2, 3}, T: 1}}, SignAt: []int{1}, Seed: seed + 9, Chan: "unbuf", Reader: "late", MaxSubsets: 3},
+			Case{Kind: "scenario", Proto: "ecdsa", Start: "fixtures", Reshares: []Reshare{{Members: []int{0, 1, 2, 3}, T: 1}}, SignAt: []int{1}, Seed: seed + 9, Chan: "unbuf", Reader: "late", MaxSubsets: 3, Overlap: true},
 			Case{Kind: "scenario", Proto: "ecdsa", Start: "fixtures", Reshares: []Reshare{{Members: []int{0, 1, 2, 3}, T: 1}}, SignAt: []int{1}, Seed: seed + 9, Retry: "subset", MaxSubsets: 3},
 			Case{Kind: "scenario", Proto: "frost", Start: "fixtures", Reshares: []Reshare{{Members: []int{0, 1, 2}, T: 1}}, SignAt: []int{1}, Seed: seed + 9, Chan: "unbuf", Reader: "late"},
-			Case{Kind: "scenario", Proto: "frost", Start: "fixtures", Reshares: []Reshare{{Members: []int{0, 1, 2}, T: 1}}, SignAt: []int{1}, Seed: seed + 9, Retry: "subset"},
+			Case{Kind: "scenario", Proto: "frost", Start: "fixtures", Reshares: []Reshare{{Members: []int{0, 1, 2}, T: 1}}, SignAt: []int{1}, Seed: seed + 9, Retry: "subset", Overlap: true},
 		)
 		scn = append(scn,
 			// real key generation, every subset signs, then two refreshes in a row
@@ -843,9 +902,9 @@ func gen(r *vgen.Rng, tier string) []Case {
 			Case{Kind: "scenario", Proto: "ecdsa", Start: "keygen", N: 4, T: 2, Reshares: []Reshare{{Members: []int{0, 1, 2, 3}, T: 1}, {Members: []int{1, 2, 3, 4}, T: 1}}, SignAt: []int{0, 1, 2}, Seed: seed + 2},
 			Case{Kind: "scenario", Proto: "frost", Start: "keygen", N: 4, T: 2, Reshares: []Reshare{{Members: []int{0, 1, 2, 3}, T: 1}}, SignAt: []int{0, 1}, Seed: seed + 2},
 			Case{Kind: "scenario", Proto: "frost", Start: "keygen", N: 4, T: 1, Reshares: []Reshare{{Members: []int{0, 1, 2, 3}, T: 2}, {Members: []int{0, 1, 3}, T: 2}}, SignAt: []int{0, 1, 2}, Seed: seed + 3},
-			Case{Kind: "scenario", Proto: "ecdsa", Start: "keygen", N: 3, T: 1, Reshares: []Reshare{{Members: []int{0, 1, 2}, T: 1}, {Members: []int{0, 1, 2, 3, 4}, T: 3}}, SignAt: []int{1, 2}, Seed: seed + 3},
+			Case{Kind: "scenario", Proto: "ecdsa", Start: "keygen", N: 3, T: 1, Reshares: []Reshare{{Members: []int{0, 1, 2}, T: 1}, {Members: []int{0, 1, 2, 3, 4}, T: 3}}, SignAt: []int{1, 2}, Seed: seed + 3, Overlap: true},
 			Case{Kind: "scenario", Proto: "frost", Start: "fixtures", Reshares: []Reshare{{Members: []int{1, 2, 3}, T: 1}}, SignAt: []int{1}, Seed: seed + 4},
-			Case{Kind: "scenario", Proto: "ecdsa", Start: "fixtures", Reshares: []Reshare{{Members: []int{1, 2, 3}, T: 1}}, SignAt: []int{1}, Seed: seed + 4},
+			Case{Kind: "scenario", Proto: "ecdsa", Start: "fixtures", Reshares: []Reshare{{Members: []int{1, 2, 3}, T: 1}}, SignAt: []int{1}, Seed: seed + 4, Overlap: true},
 		)
 		for k := uint64(0); k < 4; k++ { // more seeds = other digests, coordinators and link delays
 			scn = append(scn,
@@ -900,7 +959,7 @@ func corpusScenarios() []Case {
 				raw = in
 			}
 			var c Case
-			if json.Unmarshal(raw, &c) == nil && c.Kind == "scenario" {
+			if json.Unmarshal(raw, &c) == nil && (c.Kind == "scenario" || c.Kind == "btcexec") {
 				out = append(out, c)
 			}
 		}
@@ -945,6 +1004,39 @@ func coq(c Case, o Obs) string {
 	case "validate":
 		return "Validate " + vgen.Z(int64(c.OldT)) + " " + vgen.List(rawHex(c.Old)) + " " + vgen.List(rawHex(c.KeyPeers)) + " " +
 			vgen.List(rawHex(c.Peers)) + " " + vgen.N(uint64(o.VCode))
+	case "btcwatch":
+		sent := o.Sent
+		if o.BtcNote != "" {
+			// the case could not be driven as asked / watchExecution ended in an error or a panic: model and
+			// implementation differ (what did reach the node is still judged)
+			if sent == 0 {
+				o.Valids = make([]bool, c.Inputs)
+				for i := range o.Valids {
+					o.Valids[i] = true
+				}
+			}
+			sent = 99
+		}
+		return "BtcWatch " + vgen.Nat(c.Inputs) + " " + vgen.ListOf(c.Results, func(id int) string {
+			if id < 0 {
+				return "None"
+			}
+			return "(Some " + vgen.Nat(id) + ")"
+		}) + " " + vgen.Nat(sent) + " " + vgen.ListOf(o.Valids, vgen.Bool)
+	case "btcexec":
+		rs := o.Relayers
+		if o.BtcNote != "" {
+			// the case could not be driven as asked / the signers did not finish: model and implementation
+			// differ (what did reach the nodes is still judged)
+			all := make([]bool, c.Inputs)
+			for i := range all {
+				all[i] = true
+			}
+			rs = append(append([]RelayerTx(nil), rs...), RelayerTx{Sent: 99, Valids: all})
+		}
+		return "BtcExec " + vgen.Nat(c.Inputs) + " " + vgen.ListOf(rs, func(r RelayerTx) string {
+			return vgen.Pair(vgen.Nat(r.Sent), vgen.ListOf(r.Valids, vgen.Bool))
+		})
 	case "scenario":
 		return "Scenario " + vgen.Bool(c.Proto == "ecdsa") + " " + vgen.ListOf(o.Stages, func(s Stage) string {
 			if s.IsShares {
@@ -1017,6 +1109,9 @@ func scenarioKind(c Case) string {
 	if len(c.Modes) > 0 {
 		mode = []string{"mixed"}
 	}
+	if c.Overlap {
+		mode = append(mode, "overlap")
+	}
 	if len(mode) > 0 {
 		kind += "/" + strings.Join(mode, "-")
 	}
@@ -1035,6 +1130,9 @@ func main() {
 			if c.Kind == "scenario" {
 				return scenarioKind(c)
 			}
+			if c.Kind == "btcexec" {
+				return fmt.Sprintf("btcexec/%d-inputs", c.Inputs)
+			}
 			return c.Kind
 		},
 		NonTrivial: func(c Case, o Obs) bool {
@@ -1047,6 +1145,10 @@ func main() {
 				return len(c.Old) >= 1 && len(c.Old) < len(c.Peers)
 			case "validate":
 				return len(c.Old) >= 1
+			case "btcwatch":
+				return len(c.Results) >= 1
+			case "btcexec":
+				return len(o.Relayers) >= 2
 			}
 			return len(o.Stages) >= 2
 		},
